@@ -30,6 +30,9 @@ def run(ck, an, tier):
     allocation_filters(ck, an, "S2")
     from rules import ledger
     from sa.report import Renamed
+    from rules import C12
+    C12.subclass_ctor_plumbing(Renamed(ck, "C12:"), an, "S1")      # the request a space builds carries the space's own configuration (fractional, margin, measure): a target in contracts is not silently truncated
+    ledger.valuation_formulas(ledger._Only(Renamed(ck, "C05:"), {"weight-is-notional-over-nlv"}), an, {"weights"})     # the weights reported back are notional / NLV (what a target weight is compared with)
     ledger.trade_formulas(Renamed(ck, "C01:"), an, only={"trade-side", "trade-notional", "trade-cost_of_cash", "trade-quantity", "trade-contract"})   # what a trade of the computed size costs: a frictionless rebalance leaves the NLV where it was
     ledger.transact_equations(Renamed(ck, "C01:"), an, {"equations"})     # executing a trade moves the position by exactly the traded quantity (targets are reached exactly)      # which entries of a target survive into the allocation (non-cash, non-zero, keyed by static hashing)
 
